@@ -1,10 +1,10 @@
 package main
 
 import (
-	"go/types"
 	"fmt"
 	"go/ast"
 	"go/token"
+	"go/types"
 	"strings"
 )
 
@@ -105,13 +105,13 @@ func checkC12(p *Prog, r *Report) {
 	// ---- R12.2 guarded-by ---------------------------------------------------------------------
 	r.Rule("R12.2", "addressMap is accessed only under addressMapMu; the per-family ufrag tables only under the mux mutex; a muxed connection's address list, packet queue and closed flag only under the connection's mutex.", 8)
 	guards := map[string]string{
-		"UDPMuxDefault.addressMap": "UDPMuxDefault.addressMapMu",
-		"UDPMuxDefault.connsIPv4":  "UDPMuxDefault.mu",
-		"UDPMuxDefault.connsIPv6":  "UDPMuxDefault.mu",
-		"udpMuxedConn.addresses":   "udpMuxedConn.mu",
-		"udpMuxedConn.bufHead":     "udpMuxedConn.mu",
-		"udpMuxedConn.bufTail":     "udpMuxedConn.mu",
-		"udpMuxedConn.closed":      "udpMuxedConn.mu",
+		"UDPMuxDefault.addressMap":            "UDPMuxDefault.addressMapMu",
+		"UDPMuxDefault.connsIPv4":             "UDPMuxDefault.mu",
+		"UDPMuxDefault.connsIPv6":             "UDPMuxDefault.mu",
+		"udpMuxedConn.addresses":              "udpMuxedConn.mu",
+		"udpMuxedConn.bufHead":                "udpMuxedConn.mu",
+		"udpMuxedConn.bufTail":                "udpMuxedConn.mu",
+		"udpMuxedConn.closed":                 "udpMuxedConn.mu",
 		"UniversalUDPMuxDefault.xorMappedMap": "UDPMuxDefault.mu",
 	}
 	for field, mu := range guards {
@@ -223,7 +223,9 @@ func checkC12(p *Prog, r *Report) {
 						if ft.Op == "==" && !ft.Val && p.isNilExpr(ft.Y) && p.atomIsCallAny(cw, ft.X, "stun.Message.Decode", "stun.Message.Get") {
 							// from the failure edge, the delivery must not be reachable within the same iteration:
 							// i.e. every path to writePacket passes the loop head (read) again
-							reach := g.Reach([]*Block{e.To}, func(x *Edge) bool { return x.To.Kind != "for.head" && x.To.Kind != "for.body" || x.From.Kind == "for.head" })
+							reach := g.Reach([]*Block{e.To}, func(x *Edge) bool {
+								return x.To.Kind != "for.head" && x.To.Kind != "for.body" || x.From.Kind == "for.head"
+							})
 							if reach[loc.B] && !reachesViaRead(p, g, e.To, loc.B) {
 								bad = true
 							}
@@ -395,7 +397,9 @@ func checkC12(p *Prog, r *Report) {
 		walkBody(f, func(n ast.Node) bool {
 			if rs, ok := n.(*ast.ReturnStmt); ok && len(rs.Results) == 4 && p.MentionsObj(rs.Results[3], "io.EOF") {
 				facts, _ := p.FactsAtCall(f, rs)
-				if facts.Has(func(ft Fact) bool { return ft.Op == "==" && ft.Val && p.isNilExpr(ft.Y) && p.IsField(ft.X, "udpMuxedConn.bufTail") }) {
+				if facts.Has(func(ft Fact) bool {
+					return ft.Op == "==" && ft.Val && p.isNilExpr(ft.Y) && p.IsField(ft.X, "udpMuxedConn.bufTail")
+				}) {
 					eofOK = true
 				}
 			}
